@@ -1,11 +1,12 @@
 #!/bin/bash
 # tools/try_seed.sh C10 1 [tier] : confirm a seeded change (demo passes on /repo, fails with the patch, suite still green)
-# and run the property's check against a scratch copy with the patch applied.
+# and run the property's check against a scratch copy with the patch applied.  VERIF_DIR=<private copy of /verif> runs the check from
+# that copy (translators write lean/QcelVerif/Gen in place, so trials must not share /verif with registered runs).
 P=$1; K=$2; TIER=${3:-quick}; R=${ROUND:-1}; if [ "$R" = "1" ]; then S=/tmp/seed_$P/out; else S=/tmp/seed${R}_$P/out; fi; D=/tmp/try_${P}_${R}_$K
 rm -rf $D; mkdir -p $D; rsync -a --exclude .git /repo/ $D/repo/
 ( cd $D/repo && patch -p1 -s < $S/patch$K.diff ) || { echo "PATCH-FAILED"; exit 3; }
 ( cd /repo && /venv/bin/python $S/demo$K.py >/dev/null 2>&1 ); echo "demo on /repo: exit $?"
 ( cd $D/repo && /venv/bin/python $S/demo$K.py >$D/demo.out 2>&1 ); echo "demo with patch: exit $?"
-( cd $D/repo && /venv/bin/python -m pytest -q -p no:cacheprovider --timeout=900 -n 8 2>&1 | tail -1 )
-( cd /verif && QCEL_REPO=$D/repo timeout 3000 ./check $P --tier $TIER 2>$D/check.err | cut -c1-300 ); echo "check exit: ${PIPESTATUS[0]}"
+( cd $D/repo && /venv/bin/python -m pytest -q -p no:cacheprovider --timeout=900 -n 4 2>&1 | tail -1 )
+( cd ${VERIF_DIR:-/verif} && QCEL_REPO=$D/repo timeout 3000 ./check $P --tier $TIER 2>$D/check.err | cut -c1-300 ); echo "check exit: ${PIPESTATUS[0]}"
 rm -rf $D/repo
